@@ -10,7 +10,7 @@ from matched_markets.methodology import tbrdiagnostics
 
 ID = 'C19'
 LEVEL = 'exploration'
-RULE = ('Engine A: frames with G in {2,3,4,5,6} geos (>= 4 needed for the noisy-geo screen) x 3 | 5 trends x planted noisy geo in '
+RULE = ('Engine A: frames with G in {2,3,4,5,6} geos (>= 4 needed for the noisy-geo screen) x 5 | 8 trends x planted noisy geo in '
         '{none, each position} x planted outlier date in {none, three positions} x default / custom column names and group labels x extra geos outside the experiment in {none, unassigned label, another label, both}; '
         'each frame is fitted in 3 row orders, once with repeated (non-unique) row index labels, once on an object that has already screened ANOTHER data set, and with the date column as ISO strings / as datetime.date objects. Oracle (consistency, not prediction): get_data() == input rows minus every row of '
         'the reported noisy geos and of the reported outlier dates (as multisets of rows); get_analysis_data() == per-date control '
@@ -56,7 +56,7 @@ def canon(df):
 
 def cases(tier, seed):
     out = []
-    seeds = range(5) if tier == 'thorough' else range(3)
+    seeds = range(8) if tier == 'thorough' else range(5)
     for G in (2, 3, 4, 5, 6):
         for s in seeds:
             for noisy in [None] + list(range(G)):
